@@ -49,9 +49,11 @@ func (r *reader) Token() (xml.Token, error) {
 	case xml.StartElement:
 		r.depth++
 		if r.ws && t.Name.Space == wsNamespace && !r.negotiating {
-			if t.Name.Local == "close" {
+			if t.Name.Local == "close" && r.depth == 1 {
 				// With the WebSocket subprotocol the peer ends its stream with a
 				// <close/> element instead of an end tag (RFC 7395 §3.6).
+				// Only a top level element can be that: inside another element it is
+				// as out of place as any other framing element.
 				return nil, io.EOF
 			}
 			return nil, ErrUnexpectedRestart
